@@ -103,7 +103,7 @@ func checkTrimmed(out, s string, d int) {
 var _ = sym.Register("HC18_WriteCoord", HC18_WriteCoord)
 
 func HC18_WriteCoord() {
-	D := sym.Pick(6, 12)
+	D := sym.Pick(6, 8)
 	sym.Bound("max decimal digits", D)
 	d := sym.Choose("d", 0, D)
 	m := &fmtModel{d: d}
@@ -129,9 +129,9 @@ var _ = sym.Register("HC18_Marshal", HC18_Marshal)
 
 // HC18_Marshal: the surrounding WKT keeps type, structure and number of ordinates.
 func HC18_Marshal() {
-	d := sym.Choose("d", 0, sym.Pick(2, 4))
+	d := sym.Choose("d", 0, 2)
 	lay := []geom.Layout{geom.XY, geom.XYZ, geom.XYM, geom.XYZM}[sym.Choose("lay", 0, 3)]
-	npts := sym.Choose("points", 1, sym.Pick(1, 2))
+	npts := 1 // two points square the path count
 	m := &fmtModel{d: d}
 	m.install(npts*lay.Stride(), false)
 	var g geom.T
